@@ -17,9 +17,8 @@ open BsVerif.Dr
 #print axioms C14_clone_orders_agree
 #print axioms C14_clear_local_disable_global
 #print axioms C14_duplicate_refused
-#print axioms C14_refused_no_side_effect_partial
-#print axioms C14_refused_no_side_effect_counterexample
-#print axioms C14_stale_companion_panics_counterexample
-#print axioms C14_stale_companion_removes_foreign_counterexample
+#print axioms C14_refused_no_side_effect
+#print axioms C14_refused_witness
+#print axioms C14_refused_then_reuse_witness
 #print axioms C14_global_survives_restart
 #print axioms C14_scope_removal
